@@ -201,6 +201,10 @@ def apply_op(R, g, m, op):
         for b in who:
             b.rocktype = g.rocktype[rock]
             m.byname(b.name)[2] = rock
+    elif k == 'readd_block':
+        # a block object the grid already holds is added again (as `+` and embed() do for shared blocks): nothing changes
+        if nb == 0: return g, None
+        g.add_block(g.blocklist[op['i'] % nb])
     elif k == 'redefine_rocktype':
         if not m.rocks: return g, None
         name = op['name'] if op.get('name') in m.rocks else m.rocks[op.get('i', 0) % len(m.rocks)]
@@ -463,7 +467,8 @@ def alphabet(full):
             for fl in ['none', 'first', 'all']:
                 A.append({'op': 'reorder', 'perm': list(p), 'cperm': cp, 'flip': fl})
     for u in (0, 1, 2):
-        for fl in ('first', 'all'): A.append({'op': 'reorder', 'perm': 'reverse', 'cperm': 'identity', 'flip': fl, 'unknown': u})
+        A.append({'op': 'reorder', 'perm': 'reverse', 'cperm': 'identity', 'flip': 'all', 'unknown': u})
+    A.append({'op': 'readd_block', 'i': 1})
     for i in range(4): A.append({'op': 'demote_block', 'blocks': [i]})
     A.append({'op': 'demote_block', 'blocks': [0, 2]}); A.append({'op': 'demote_block', 'blocks': [1, 0, 1]})
     A.append({'op': 'clean_rocktypes'})
@@ -494,6 +499,7 @@ def op_strategy():
         st.builds(lambda a: {'op': 'add_rocktype', 'i': a}, i),
         st.builds(lambda a: {'op': 'delete_rocktype', 'i': a}, i),
         st.builds(lambda a: {'op': 'redefine_rocktype', 'i': a}, i),
+        st.builds(lambda a: {'op': 'readd_block', 'i': a}, i),
         st.builds(lambda a, r, w: {'op': 'set_rocktype', 'i': a, 'r': r, 'who': w}, i, i, st.sampled_from(['one', 'one', 'atm'])),
         st.builds(lambda a, b: {'op': 'rename_rocktype', 'i': a, 'j': b}, i, i),
         st.builds(lambda a, b: {'op': 'rename_rocktype', 'i': a, 'j': b, 'long': True}, i, i),
